@@ -3,7 +3,9 @@
 Engine N: real `PreparedStatement` / `BoundStatement` objects are built for every bind-metadata
 shape (1-4 columns of int/text/blob/uuid, partition key = every non-empty ordered choice of <=3
 positions), and bound positionally and by name with every combination of value / None /
-UNSET_VALUE / missing / extra, on protocol versions 3, 4 and 5.  The outcome is compared with a
+UNSET_VALUE / missing / extra, on protocol versions 3, 4 and 5.  A second family of shapes has a column
+name that is the target of several bind markers (k,c,c / v,k,v / k,k ...): the single dict value must reach
+every marker of that name, exactly as the positional bind that repeats it.  The outcome is compared with a
 small reference model of the rules in the statement of C30, the serialized values with independent
 serializers, the routing key with Cassandra's composite partition-key encoding and its Murmur3 token
 with the reference partitioner.  `PreparedStatement.from_message` is driven separately for how it
@@ -20,13 +22,18 @@ META = {
     'level': 'exploration',
     'engine': 'N',
     'technique': 'bounded-exhaustive enumeration of bind metadata x value lists/dicts x protocol versions vs reference binding model and composite-key encoding',
-    'text': 'Bind metadata of 1-4 columns (types int/text/blob/uuid: all type vectors for <=2 columns, 8 rotations for 3-4 columns in quick, all 4^n in '
+    'text': 'Bind metadata of 1-4 markers with pairwise distinct column names (types int/text/blob/uuid: all type vectors for <=2 columns, 8 rotations for 3-4 columns in quick, all 4^n in '
             'thorough) x partition key = every non-empty ordered selection of <=3 positions x 3 value variants (boundary ints, empty/non-ASCII text, '
             'empty/300-byte blobs) x protocol 3/4/5 x positional binds of every length 0..n+1 with every value/None/UNSET pattern x named binds with '
             'every value/None/UNSET/absent pattern.  Oracle: positional == named; UNSET (explicit or implied by a missing value) only on v4+, never '
             'in a partition-key position; extra positional values rejected; values equal independently serialized bytes in bind-marker order; '
             'routing_key == single component raw or <len16><bytes><0> per component in partition-key order; Murmur3Token.from_key(routing_key) == '
-            'reference token of the reference row key.  from_message: routing-key indexes from pk_indexes (v4+) and from the right table\'s '
+            'reference token of the reference row key.  Repeated marker names: bind metadata of 2-4 markers in which a column name is the target of '
+            'two or more markers (every set partition of the marker positions with a block >=2: adjacent / non-adjacent repeats, key and non-key '
+            'columns, partition-key position = any marker of the column; one type per name, all type vectors for <=2 names, 8 rotations for 3 in '
+            'quick) x 3 value variants x protocol 3/4/5 x every named pattern value/None/UNSET/absent per distinct name, each compared with the '
+            'reference model (every marker of a name gets the one dict value) and with the positional bind that gives every marker what its name '
+            'got (quick: exactly those positional patterns; thorough: all positional patterns).  from_message (both families): routing-key indexes from pk_indexes (v4+) and from the right table\'s '
             'partition key (v3).',
     'note': 'None bound to a partition-key column and (v3) a short positional list that does not reach a partition-key column are outside the '
             'statement and are not judged. Serializers for the four types are re-implemented in the check (struct / utf-8 / raw / uuid.bytes).',
@@ -79,10 +86,36 @@ def pk_choices(n):
     return out
 
 
+def repeated_name_patterns(n):
+    """every assignment of column names to n bind markers in which at least one name is the target of two or more
+    markers, up to renaming: restricted-growth strings of length n with fewer than n distinct letters (set partitions
+    of the marker positions other than the all-singletons one) -- adjacent and non-adjacent repeats, 2-n markers per name"""
+    out = []
+
+    def grow(prefix, used):
+        if len(prefix) == n:
+            if used < n:
+                out.append(tuple(prefix))
+            return
+        for x in range(used + 1):
+            grow(prefix + [x], max(used, x + 1))
+    grow([], 0)
+    return out
+
+
+def pk_choices_distinct_names(n, nameidx):
+    """partition-key positions as in pk_choices, but a partition-key column is one component: no two chosen positions
+    carry the same name (the chosen position may be any of the markers of a repeated key column)"""
+    return [pk for pk in pk_choices(n) if len(set(nameidx[i] for i in pk)) == len(pk)]
+
+
 # ------------------------------------------------------------------------------------ reference model
-def model(form, states, n, pk, proto):
-    """-> ('reject', reason) | ('ok', [per column: V|N|U]) | ('either', prefix) for the v3 short positional list"""
+def model(form, states, n, pk, proto, nameidx=None):
+    """-> ('reject', reason) | ('ok', [per column: V|N|U]) | ('either', prefix) for the v3 short positional list.
+    A named pattern has one state per distinct column name; every marker of that name gets it."""
     pkset = set(pk)
+    if form == 'named' and nameidx is not None:
+        states = [states[nameidx[i]] for i in range(n)]
     if form == 'positional':
         L = len(states)
         if L > n:
@@ -114,13 +147,22 @@ def model(form, states, n, pk, proto):
 
 # ------------------------------------------------------------------------------------ driver side
 class Shape(object):
-    def __init__(self, types, pk, proto, variant):
+    def __init__(self, types, pk, proto, variant, names=None):
+        """types: per bind marker; names: per bind marker the index of its column name (None: all distinct)"""
         from cassandra.protocol import ColumnMetadata
         from cassandra.query import PreparedStatement
         self.types, self.pk, self.proto, self.variant = types, tuple(pk), proto, variant
         self.n = len(types)
+        self.nameidx = tuple(names) if names is not None else tuple(range(self.n))
+        if len(self.nameidx) != self.n or sorted(set(self.nameidx)) != list(range(max(self.nameidx) + 1)):
+            raise HarnessError('bad name pattern %r for %d markers' % (self.nameidx, self.n))
+        self.d = max(self.nameidx) + 1                     # distinct column names
+        self.repeated = self.d < self.n
+        self.first_pos = [self.nameidx.index(j) for j in range(self.d)]
+        if any(types[i] != types[self.first_pos[self.nameidx[i]]] for i in range(self.n)):
+            raise HarnessError('markers of one column with different types: %r %r' % (types, self.nameidx))
         dt = driver_types()
-        self.names = ['c%d' % i for i in range(self.n)]
+        self.names = ['c%d' % j for j in self.nameidx]
         self.col_meta = [ColumnMetadata('ks', 't', self.names[i], dt[types[i]]) for i in range(self.n)]
         self.prepared = PreparedStatement(column_metadata=self.col_meta, query_id=b'id', routing_key_indexes=list(pk),
                                           query='q', keyspace='ks', protocol_version=proto,
@@ -138,7 +180,8 @@ def observe(shape, form, states, unset):
         args = [shape.arg(i, s, unset) if i < shape.n else (b'extra' if s == V else (None if s == N else unset))
                 for i, s in enumerate(states)]
     else:
-        args = dict((shape.names[i], shape.arg(i, s, unset)) for i, s in enumerate(states) if s != A)
+        # one dict entry per distinct column name (states are per name)
+        args = dict(('c%d' % j, shape.arg(shape.first_pos[j], s, unset)) for j, s in enumerate(states) if s != A)
     try:
         bs = shape.prepared.bind(args)
     except Exception as e:
@@ -155,8 +198,11 @@ def observe(shape, form, states, unset):
 
 
 def case_of(shape, form, states):
-    return {'types': list(shape.types), 'pk': list(shape.pk), 'proto': shape.proto, 'variant': shape.variant,
+    case = {'types': list(shape.types), 'pk': list(shape.pk), 'proto': shape.proto, 'variant': shape.variant,
             'form': form, 'states': list(states)}
+    if shape.repeated:
+        case['names'] = list(shape.nameidx)       # marker i binds column c<names[i]>; named states are per column name
+    return case
 
 
 def expected_values(shape, sts):
@@ -166,32 +212,36 @@ def expected_values(shape, sts):
 def judge_bind(part, shape, form, states, unset, M3):
     """returns the observation (for the equivalence clause)"""
     n, pk, proto = shape.n, shape.pk, shape.proto
-    want = model(form, states, n, pk, proto)
+    want = model(form, states, n, pk, proto, shape.nameidx)
     obs = observe(shape, form, states, unset)
     part.count('evaluations')
     part.count('binds')
+    tag = ''
+    if shape.repeated:                     # input class: a column name that is the target of several bind markers
+        tag = '/repeated-name'
+        part.count('repeated_name_binds')
     era = 'v3' if proto < 4 else 'v4+'
     if obs[0] == 'reject':
         part.outcome((form, era, 'reject', want[0] if want[0] != 'ok' else 'ok!'))
         if want[0] == 'ok':
             cls = 'all-values' if all(s == V for s in states) else '+'.join(sorted(set(s for s in states if s != V)))
-            part.violation('C30/%s/%s/rejected-valid/%s' % (form, era, cls),
+            part.violation('C30/%s/%s/rejected-valid/%s%s' % (form, era, cls, tag),
                            'bind raised %s for a bind the statement allows (expected %r): %r' % (obs[1], want[1], case_of(shape, form, states)),
                            case_of(shape, form, states))
         return obs
     vals, bs = obs[1], obs[2]
     part.outcome((form, era, 'ok', want[0]))
     if want[0] == 'reject':
-        part.violation('C30/%s/%s/accepted/%s' % (form, era, want[1]),
+        part.violation('C30/%s/%s/accepted/%s%s' % (form, era, want[1], tag),
                        'bind accepted (%r) what must be rejected (%s): %r' % (vals, want[1], case_of(shape, form, states)), case_of(shape, form, states))
         return obs
     if want[0] == 'either':
         # v3, short positional list: must not invent UNSET; what it keeps must be the serialized prefix
         if U in vals:
-            part.violation('C30/positional/v3/missing-became-unset', 'v3 short list produced UNSET: %r for %r' % (vals, case_of(shape, form, states)),
+            part.violation('C30/positional/v3/missing-became-unset' + tag, 'v3 short list produced UNSET: %r for %r' % (vals, case_of(shape, form, states)),
                            case_of(shape, form, states))
         elif vals != expected_values(shape, want[1]):
-            part.violation('C30/positional/v3/values', 'values %r, expected prefix %r for %r' % (vals, expected_values(shape, want[1]), case_of(shape, form, states)),
+            part.violation('C30/positional/v3/values' + tag, 'values %r, expected prefix %r for %r' % (vals, expected_values(shape, want[1]), case_of(shape, form, states)),
                            case_of(shape, form, states))
         exp_states = want[1]
     else:
@@ -211,7 +261,7 @@ def judge_bind(part, shape, form, states, unset, M3):
                     cls = 'none-placement'
                 else:
                     cls = 'serialization/' + shape.types[i]
-            part.violation('C30/%s/%s/values/%s' % (form, era, cls), 'values %r, expected %r for %r' % (vals, exp, case_of(shape, form, states)),
+            part.violation('C30/%s/%s/values/%s%s' % (form, era, cls, tag), 'values %r, expected %r for %r' % (vals, exp, case_of(shape, form, states)),
                            case_of(shape, form, states))
             return obs
     # ---- routing key
@@ -223,7 +273,7 @@ def judge_bind(part, shape, form, states, unset, M3):
         try:
             rk = bs.routing_key
         except Exception as e:
-            part.violation('C30/routing_key/%s/raises/%s' % (kind, type(e).__name__), 'routing_key raised %r for %r' % (e, case_of(shape, form, states)),
+            part.violation('C30/routing_key/%s/raises/%s%s' % (kind, type(e).__name__, tag), 'routing_key raised %r for %r' % (e, case_of(shape, form, states)),
                            case_of(shape, form, states))
             return obs
         if rk != want_rk:
@@ -233,7 +283,7 @@ def judge_bind(part, shape, form, states, unset, M3):
                 cls = 'no-end-of-component'
             else:
                 cls = 'bytes'
-            part.violation('C30/routing_key/%s/%s' % (kind, cls), 'routing_key %r, Cassandra partition key %r for %r' % (rk, want_rk, case_of(shape, form, states)),
+            part.violation('C30/routing_key/%s/%s%s' % (kind, cls, tag), 'routing_key %r, Cassandra partition key %r for %r' % (rk, want_rk, case_of(shape, form, states)),
                            case_of(shape, form, states))
         elif want_rk:
             tok = M3.from_key(rk).value
@@ -247,20 +297,35 @@ def judge_bind(part, shape, form, states, unset, M3):
     return obs
 
 
-def twin_of(states, n, proto):
-    """the named pattern a positional pattern must be equivalent to (None: no such claim)"""
-    L = len(states)
-    if L > n:
+def twin_of(states, shape):
+    """the named pattern (one state per distinct column name) a positional pattern must be equivalent to
+    (None: no such claim; with a repeated name only if all its markers are given the same thing)"""
+    n, L = shape.n, len(states)
+    if L > n or (L < n and shape.proto < 4):
         return None
-    if L == n:
-        return tuple(states)
-    if proto >= 4:
-        return tuple(states) + (A,) * (n - L)
-    return None
+    full = tuple(states) + (A,) * (n - L)
+    twin = tuple(full[p] for p in shape.first_pos)
+    if any(full[i] != twin[shape.nameidx[i]] for i in range(n)):
+        return None
+    return twin
+
+
+def positional_twins(named_states, shape):
+    """the positional patterns that say the same as a named pattern: every marker gets what its name got;
+    absent names must be a suffix of the markers (v4+) to be expressible as a short list"""
+    full = [named_states[j] for j in shape.nameidx]
+    if A not in full:
+        return [tuple(full)]
+    k = full.index(A)
+    if shape.proto >= 4 and all(s == A for s in full[k:]):
+        return [tuple(full[:k])]
+    return []
 
 
 def check_equivalence(part, shape, states, obs, other):
     part.count('equivalences')
+    if shape.repeated:
+        part.count('repeated_name_equivalences')
     same = (obs[0] == other[0]) and (obs[0] == 'reject' or obs[1] == other[1])
     if same and obs[0] == 'ok':
         try:
@@ -268,7 +333,7 @@ def check_equivalence(part, shape, states, obs, other):
         except Exception:
             same = True      # judged by the routing-key clause
     if not same:
-        part.violation('C30/equivalence/%s' % ('full' if len(states) == shape.n else 'missing-trailing'),
+        part.violation('C30/equivalence/%s%s' % ('full' if len(states) == shape.n else 'missing-trailing', '/repeated-name' if shape.repeated else ''),
                        'positional %r gives %r, named gives %r for %r' % (states, obs[:2], other[:2], case_of(shape, 'positional', states)),
                        case_of(shape, 'positional', states))
 
@@ -281,57 +346,73 @@ def positional_patterns(n):
                 yield head + ex
 
 
-def eval_shape(part, types, pk, proto, variant, only=None):
+def eval_shape(part, types, pk, proto, variant, names=None, all_positional=True, only=None):
     from cassandra.query import UNSET_VALUE
     from cassandra.metadata import Murmur3Token
-    shape = Shape(types, pk, proto, variant)
+    shape = Shape(types, pk, proto, variant, names)
     n = shape.n
     if only is not None:                      # replay of one recorded bind
         form, states = only[0], tuple(only[1])
         obs = judge_bind(part, shape, form, states, UNSET_VALUE, Murmur3Token)
         if form == 'positional':
-            twin = twin_of(states, n, proto)
+            twin = twin_of(states, shape)
             if twin is not None:
                 check_equivalence(part, shape, states, obs, observe(shape, 'named', twin, UNSET_VALUE))
         return
     named_obs = {}
-    for states in itertools.product((V, N, U, A), repeat=n):
+    derived = []
+    for states in itertools.product((V, N, U, A), repeat=shape.d):
         named_obs[states] = judge_bind(part, shape, 'named', states, UNSET_VALUE, Murmur3Token)
         if any(s != V for s in states):
             part.count('distinct_nontrivial')
-    for states in positional_patterns(n):
+        if not all_positional:
+            derived.extend(positional_twins(states, shape))
+    # positional side: every pattern, or (repeated names, quick tier) exactly those that have a named twin
+    for states in (positional_patterns(n) if all_positional else derived):
         obs = judge_bind(part, shape, 'positional', states, UNSET_VALUE, Murmur3Token)
         if len(states) != n or any(s != V for s in states):
             part.count('distinct_nontrivial')
-        twin = twin_of(states, n, proto)
+        twin = twin_of(states, shape)
         if twin is not None:
             check_equivalence(part, shape, states, obs, named_obs[twin])
+        elif not all_positional:
+            raise HarnessError('derived positional pattern without twin: %r %r' % (states, shape.nameidx))
     part.count('shapes')
+    if shape.repeated:
+        part.count('repeated_name_shapes')
+        if proto == 4 and variant == 1:
+            part.sample({'types': list(types), 'names': shape.names, 'pk': list(pk), 'proto': proto,
+                         'named': dict(('c%d' % j, repr(shape.values[shape.first_pos[j]])) for j in range(shape.d)),
+                         'positional': [repr(v) for v in shape.values]}, limit=2)
     if proto == 4 and variant == 1 and len(pk) > 1:
         part.sample({'types': list(types), 'pk': list(pk), 'proto': proto, 'values': [repr(v) for v in shape.values],
                      'routing_key': P.composite_key([shape.ref_bytes[i] for i in pk])}, limit=1)
 
 
 # ------------------------------------------------------------------------------------ from_message
-def eval_from_message(part, types, pk, variant):
-    """how PreparedStatement.from_message finds the routing-key indexes"""
+def eval_from_message(part, types, pk, variant, nameidx=None):
+    """how PreparedStatement.from_message finds the routing-key indexes (nameidx: name pattern with repeats)"""
     import cassandra.metadata as md
     from cassandra.protocol import ColumnMetadata
     from cassandra.query import PreparedStatement
     from cassandra.metadata import Murmur3Token
     n = len(types)
     dt = driver_types()
-    names = ['c%d' % i for i in range(n)]
+    nameidx = tuple(nameidx) if nameidx is not None else tuple(range(n))
+    tag = '/repeated-name' if len(set(nameidx)) < n else ''
+    names = ['c%d' % j for j in nameidx]
     col_meta = [ColumnMetadata('ks', 't', names[i], dt[types[i]]) for i in range(n)]
-    values = [VALUES[t][variant] for t in types]
+    values = [VALUES[t][variant] for t in types]          # same type => same value: markers of one name get one value
     ref_bytes = [ref_serialize(t, v) for t, v in zip(types, values)]
+    pk_names = set(names[i] for i in pk)
 
     def table(ks, name, pk_names):
         t = md.TableMetadata(ks, name)
         t.partition_key = [md.ColumnMetadata(t, nm, 'blob') for nm in pk_names]
         return t
     # the right table, a sibling table and a same-named table in another keyspace with other partition keys
-    other_pk = [names[(pk[0] + 1) % n]] if n > 1 else ['zz']
+    others = [names[(pk[0] + k) % n] for k in range(1, n) if names[(pk[0] + k) % n] != names[pk[0]]]
+    other_pk = [others[0]] if others else ['zz']
     meta = md.Metadata()
     ks = md.KeyspaceMetadata('ks', True, 'SimpleStrategy', {'replication_factor': '1'})
     ks.tables = {'a_first': table('ks', 'a_first', other_pk), 't': table('ks', 't', [names[i] for i in pk]),
@@ -357,6 +438,9 @@ def eval_from_message(part, types, pk, variant):
     variants.append(('v3-unknown-table', 3, None, md.Metadata(), None))
     for label, proto, pki, cmeta, want_idx in variants:
         case = {'from_message': label, 'types': list(types), 'pk': list(pk), 'variant': variant}
+        if tag:
+            case['names'] = list(nameidx)
+            label += tag
         part.count('evaluations')
         part.count('from_message_cases')
         try:
@@ -379,27 +463,40 @@ def eval_from_message(part, types, pk, variant):
             part.violation('C30/routing_key/token', 'token mismatch for %r' % (case,), case)
         # UNSET must be refused for exactly the partition-key positions
         if proto >= 4:
-            for i in range(n):
-                d = dict((names[j], values[j]) for j in range(n) if j != i)
+            for nm in sorted(set(names)):
+                d = dict((names[j], values[j]) for j in range(n) if names[j] != nm)
                 part.count('evaluations')
                 try:
                     ps.bind(d)
                     refused = False
                 except Exception:
                     refused = True
-                if refused != (i in set(pk)):
-                    part.violation('C30/from_message/%s/unset-%s' % (label, 'accepted-in-pk' if i in set(pk) else 'refused-outside-pk'),
-                                   'missing value for column %d: refused=%r, partition key %r, for %r' % (i, refused, list(pk), case), case)
+                if refused != (nm in pk_names):
+                    part.violation('C30/from_message/%s/unset-%s' % (label, 'accepted-in-pk' if nm in pk_names else 'refused-outside-pk'),
+                                   'missing value for column %s: refused=%r, partition key %r, for %r' % (nm, refused, list(pk), case), case)
 
 
 def run_unit(unit):
     part = Part()
-    for types, pk in unit:
+    for types, pk, names, all_positional in unit:
         for variant in range(3):
             for proto in (3, 4, 5):
-                eval_shape(part, types, pk, proto, variant)
-            eval_from_message(part, types, pk, variant)
+                eval_shape(part, types, pk, proto, variant, names, all_positional)
+            eval_from_message(part, types, pk, variant, names)
     return part
+
+
+def repeated_shapes(full):
+    """(per-marker types, pk positions, name pattern) for 2-4 markers with a repeated column name"""
+    out = []
+    for n in range(2, 5):
+        for nameidx in repeated_name_patterns(n):
+            d = max(nameidx) + 1
+            for tv in type_vectors(d, full):              # one type per distinct column name
+                types = tuple(tv[j] for j in nameidx)
+                for pk in pk_choices_distinct_names(n, nameidx):
+                    out.append((types, pk, nameidx))
+    return out
 
 
 def run(ctx):
@@ -408,17 +505,30 @@ def run(ctx):
     for n in range(1, 5):
         for tv in type_vectors(n, ctx.thorough):
             for pk in pk_choices(n):
-                shapes.append((tv, pk))
+                shapes.append((tv, pk, None, True))
+    ndistinct = len(shapes)
+    rep = repeated_shapes(ctx.thorough)
+    shapes.extend((types, pk, nameidx, ctx.thorough) for types, pk, nameidx in rep)
+    ctx.count('repeated_name_patterns', len(set(s[2] for s in rep)))
     shapes = ctx.rotate(shapes)
     nunits = ctx.nproc * 6
     units = [shapes[i::nunits] for i in range(nunits)]
     for part in ctx.pmap(run_unit, [u for u in units if u]):
         ctx.merge(part)
-    ctx.cov['rule'] = ('%d shapes (type vector x ordered partition-key positions) x 3 value variants x protocols 3,4,5; per shape every named pattern '
+    ctx.cov['rule'] = ('%d shapes with pairwise distinct marker names (type vector x ordered partition-key positions) x 3 value variants x protocols '
+                       '3,4,5; per shape every named pattern '
                        'in {value,None,UNSET,absent}^n and every positional pattern in {value,None,UNSET}^L, L=0..n, plus one extra element '
-                       '(value/UNSET/None); counters: binds, equivalences (positional vs named pairs), routing_keys (compared), '
+                       '(value/UNSET/None).  %d shapes with a repeated marker name (%d name patterns = all set partitions of 2-4 marker positions '
+                       'with a block of >=2 markers; one type per distinct name; partition-key positions with pairwise distinct names): every '
+                       'named pattern in {value,None,UNSET,absent}^(distinct names) and %s.  Counters: binds, equivalences (positional vs named '
+                       'pairs), repeated_name_shapes / repeated_name_binds / repeated_name_equivalences (the part of shapes / binds / equivalences '
+                       'with a repeated name), routing_keys (compared), '
                        'nontrivial_routing_keys (composite, or with an empty / >255-byte component), from_message_cases. non-trivial bind = pattern '
-                       'that is not "all values, full length"' % len(shapes))
+                       'that is not "all values, full length"' % (
+                           ndistinct, len(rep), len(set(s[2] for s in rep)),
+                           'every positional pattern as above' if ctx.thorough else
+                           'the positional patterns that say the same as a named one (each marker gets what its name got; absent names only as a '
+                           'trailing run of markers on v4+)'))
     ctx.cov['exhaustive'] = True
     ctx.assume('None bound to a partition-key column: Cassandra rejects such a row; the routing key is not judged (counter routing_key_not_judged)')
     ctx.assume('protocol v3, positional list shorter than the bind markers: the statement only says such values do not become UNSET; '
@@ -427,15 +537,18 @@ def run(ctx):
     ctx.assume('protocol v3, named bind with a missing name: must be rejected (there is no way to express it)')
     ctx.assume('extra keys in a named bind are not generated (the statement speaks of extra positional values only)')
     ctx.assume('"rejected" = bind raises any exception')
+    ctx.assume('a column name that is the target of several bind markers (WHERE c>=? AND c<=?, SET v=? .. IF v=?): the one dict value is bound to '
+               'every marker of that name, i.e. the same as the positional bind that repeats the value; all markers of one name have one type; '
+               'a partition-key column contributes one routing-key position (any one of its markers)')
 
 
 def replay(ctx, data):
     part = Part()
     if 'from_message' in data:
-        eval_from_message(part, tuple(data['types']), tuple(data['pk']), data['variant'])
+        eval_from_message(part, tuple(data['types']), tuple(data['pk']), data['variant'], data.get('names'))
     else:
         eval_shape(part, tuple(data['types']), tuple(data['pk']), data['proto'], data['variant'],
-                   only=(data['form'], data['states']))
+                   names=data.get('names'), only=(data['form'], data['states']))
     for fp, what, _ in part.violations:
         print(fp, '::', what[:600])
     return bool(part.violations)
